@@ -1,14 +1,28 @@
 //! vx_hist: see /verif/harness/AGENTS-GUIDE.md; one module per property, dispatched on the property id.
+//! All properties of this binary share one history engine (`engine.rs`, kernel K1).
+
+mod c05;
+mod c06;
+mod c07;
+mod c13;
+mod c17;
+mod engine;
+mod probe;
+mod profile;
 
 use vcore::{machinery_error, Ctx};
 
 fn main() {
     let ctx = Ctx::from_args();
-    vcore::quiet_panics();
-    #[allow(clippy::match_single_binding)]
+    engine::install_panic_hook();
     let out: vcore::Outcome = match ctx.id.as_str() {
+        "C05" => c05::run(&ctx),
+        "C06" => c06::run(&ctx),
+        "C07" => c07::run(&ctx),
+        "C13" => c13::run(&ctx),
+        "C17" => c17::run(&ctx),
+        "PROBE" => probe::run(&ctx),
         other => machinery_error(&format!("vx_hist does not implement {other}")),
     };
-    #[allow(unreachable_code)]
     vcore::finish(&ctx, out);
 }
